@@ -121,7 +121,15 @@ func Build(t *core.T) *Built {
 
 // Run is one simulated epoch: build, run every query alone, then all tasks
 // concurrently under the scheduler.
+var stuckRuns int
+
 func Run(t *core.T) {
+	if stuckRuns > 8 {
+		// every such run leaks its blocked goroutines; stop exploring with this engine in this process
+		t.Probe("run_skipped_after_repeated_blocking")
+		t.Src.Draw(2, "skip")
+		return
+	}
 	b := Build(t)
 	t.Logf("tree: %d live pointers, bound %v..%v; %d tasks", len(b.Model.Live), b.W.Bound.Min, b.W.Bound.Max, len(b.Plan))
 	// the image is taken before any query has touched the tree under test
@@ -214,6 +222,14 @@ func Run(t *core.T) {
 	}
 	k.Run()
 	qt.PointHook, qt.FilterHook, verifrt.YieldHook = nil, nil, nil
+	if k.Stuck {
+		// a task blocked on a lock or channel the simulator does not own while another
+		// task was parked inside the critical section: this engine cannot schedule such
+		// code (the instrumented engine rewrites locks and can); inconclusive, not a finding
+		t.Probe("run_abandoned_task_blocked_outside_a_yield")
+		stuckRuns++
+		return
+	}
 	if k.AbortWhy != "" && !t.Failed() {
 		if k.Deadlock {
 			t.Violate("liveness", "deadlock", "", "readers deadlocked: %s", k.AbortWhy)
